@@ -84,7 +84,7 @@ def snapshot(root):
     for dp, dn, fn in os.walk(root):
         for f in sorted(fn):
             p = os.path.join(dp, f)
-            out.append((os.path.relpath(p, root), open(p, "rb").read()))
+            out.append((os.path.relpath(p, root), os.lstat(p).st_ino, open(p, "rb").read()))      # inode: a re-sent file is a new one
     return sorted(out)
 
 
@@ -214,9 +214,9 @@ def large_tree(n):
             f.write(f"content {i}\n")
     code, s, u, c, err = hub_sync(local, hub, "path")
     landed = all(os.path.exists(os.path.join(hub, f"file_{i:06d}.txt")) and open(os.path.join(hub, f"file_{i:06d}.txt")).read() == f"content {i}\n" for i in range(n))
-    snap1 = sorted(x for x in os.listdir(hub) if x != ".copia")
+    snap1 = sorted((x, os.lstat(os.path.join(hub, x)).st_ino) for x in os.listdir(hub) if x != ".copia")
     code2, s2, u2, c2, err2 = hub_sync(local, hub, "path")
-    snap2 = sorted(x for x in os.listdir(hub) if x != ".copia")
+    snap2 = sorted((x, os.lstat(os.path.join(hub, x)).st_ino) for x in os.listdir(hub) if x != ".copia")
     rec = {"kind": "large", "n": n, "hub": [], "exit": code, "sent": s, "landed": landed,
            "second": {"exit": code2, "sent": s2, "conflicts": c2, "unchanged": snap1 == snap2}, "stderr": (err + " / " + err2)[-200:]}
     shutil.rmtree(local, ignore_errors=True)
